@@ -412,6 +412,12 @@ func (x *Executor) loopEnv(fr *Frame, li *loopInfo, st *State) *Env {
 			vars["iter"] = Val{T: fmt.Sprintf("(+ %s 1)", v.T), Ty: mathInt}
 		}
 	}
+	if rng := mapRangeOf(li); rng != nil {
+		if vis, ok := st.ghost[fmt.Sprintf("visited$%d$%s", fr.id, rng.Name())]; ok {
+			mt := rng.X.Type().Underlying().(*types.Map)
+			vars["visited"] = Val{T: vis, Ty: u.eng.ghostMapType(mt.Key(), types.Typ[types.Bool])}
+		}
+	}
 	locals := x.localsLookupAt(fr, st, loopPos(li.header))
 	env := &Env{x: x, u: u, vars: vars, bound: map[string]Val{}, st: st, old: fr.entrySt, pkg: fr.fn.Pkg.Pkg, locals: locals}
 	if env.old == nil {
